@@ -49,6 +49,9 @@ static int64_t tick_ns;
 static int defer_opt, conn_mode /* 0 none 1 ok 2 refused */, use_tcp;
 static const char *filtfn;
 static int ncb, teardown;
+static int basefreed;
+static int ref_cleanups;     /* cleanup callbacks of evbuffer_add_reference chunks that have run */
+static int free_ctx_calls;   /* calls of the filter's free_context */
 static FILE *out;
 static char cblog[1 << 16];
 static size_t cblen;
@@ -151,6 +154,7 @@ static void user_cb(int e, const char *k, short what)
 		else if (!strcmp(xa, "clr")) bufferevent_setcb(bev, NULL, NULL, NULL, NULL);
 		else if (!strcmp(xa, "w1")) { if (!E[e].fin && !E[e].badconn) do_write(e, 1); }
 		else if (!strcmp(xa, "wm0")) bufferevent_setwatermark(bev, EV_READ, 0, 0);
+		else if (!strcmp(xa, "freebrk")) { do_free(e); event_base_loopbreak(base[kind == 2 ? e : 1]); }
 	}
 }
 static void rcb(struct bufferevent *b, void *arg) { user_cb((int)(intptr_t)arg, "r", 0); }
@@ -170,6 +174,20 @@ filt(struct evbuffer *src, struct evbuffer *dst, ev_ssize_t lim, enum buffereven
 	if (evbuffer_remove_buffer(src, dst, (size_t)(k * unit)) < 0) return BEV_ERROR;
 	return BEV_OK;
 }
+
+static void ref_cleanup(const void *data, size_t len, void *arg) { ref_cleanups++; free(arg); }
+static int do_writeref(int e, long n)
+{
+	size_t len = (size_t)(n * unit), i;
+	unsigned char *chunk = malloc(len ? len : 1);
+	int r;
+	for (i = 0; i < len; i++) chunk[i] = sbyte(e, E[e].wr + (long long)i);
+	r = evbuffer_add_reference(bufferevent_get_output(E[e].bev), chunk, len, ref_cleanup, chunk);
+	if (r == 0) E[e].wr += len; else free(chunk);
+	return r;
+}
+
+static void filt_free_ctx(void *ctx) { free_ctx_calls++; free(ctx); }   /* a second call is a double free (ASan) */
 
 static void mk_ep(int e, struct bufferevent *bev, int fd)
 {
@@ -194,7 +212,7 @@ static int setup(void)
 		if (bufferevent_pair_new(base[1], 0, pr) < 0) return -1;
 		mk_ep(1, pr[0], -1); mk_ep(2, pr[1], -1);
 		if (kind == 1) {
-			struct bufferevent *f = bufferevent_filter_new(pr[0], filt, filt, BEV_OPT_DEFER_CALLBACKS, NULL, NULL);
+			struct bufferevent *f = bufferevent_filter_new(pr[0], filt, filt, BEV_OPT_DEFER_CALLBACKS, filt_free_ctx, malloc(16));
 			if (!f) return -1;
 			mk_ep(3, f, -1);
 		}
@@ -277,13 +295,24 @@ static int exec_op(jval *op)
 	struct bufferevent *bev = (e >= 1 && e < NEP) ? E[e].bev : NULL;
 	struct timeval tr, tw;
 	if (!strcmp(a, "loop")) {
+		if (!base[e]) return -97;
 		vt_now_ns += j_int(op, "t", 0) * tick_ns;
 		ncb = 0;
 		return event_base_loop(base[e], EVLOOP_NONBLOCK) < 0 ? -1 : 0;
 	}
 	if (!strcmp(a, "connect")) return do_connect();
+	if (!strcmp(a, "basefree")) {
+		/* release what the application still holds, then free the bases: pending finalizers run there */
+		int i;
+		if (kind == 1 && E[3].alive) do_free(3);
+		for (i = 1; i <= 2; i++) if (E[i].exists && E[i].alive) do_free(i);
+		for (i = 1; i <= 2; i++) if (base[i]) { event_base_free(base[i]); base[i] = NULL; }
+		basefreed = 1;
+		return 0;
+	}
 	if (!bev || !E[e].alive) return -99;
 	if (!strcmp(a, "write")) return do_write(e, (long)j_int(op, "n", 0));
+	if (!strcmp(a, "writeref")) return do_writeref(e, (long)j_int(op, "n", 0));
 	if (!strcmp(a, "trig")) { bufferevent_trigger_event(bev, (short)j_int(op, "f", 0), BEV_TRIG_DEFER_CALLBACKS); return 0; }
 	if (!strcmp(a, "read")) {      /* the application reads outside a callback */
 		long long k = j_int(op, "n", 0);
@@ -363,7 +392,7 @@ static void print_obs(int r)
 		else
 			fprintf(out, "{\"il\":-1,\"ol\":-1,\"en\":-1,\"rd\":%lld,\"bad\":%lld,\"w\":0}", units(E[e].rd), E[e].bad);
 	}
-	fprintf(out, "]}");
+	fprintf(out, "],\"fc\":%d,\"rc\":%d}", free_ctx_calls, ref_cleanups);
 }
 
 static void quiet_log(int sev, const char *msg) { (void)sev; (void)msg; }
@@ -383,7 +412,7 @@ static void run_scenario(jval *sc)
 	filtfn = j_str(cfg, "filtfn", "id");
 	conn_mode = !strcmp(cm, "ok") ? 1 : !strcmp(cm, "refused") ? 2 : 0;
 	vt_now_ns = BASE_NS; vt_enabled = 1; vt_wait_policy = NULL; vt_pre_wait = NULL;
-	teardown = 0; listen_fd = -1; ncb = 0;
+	teardown = 0; listen_fd = -1; ncb = 0; free_ctx_calls = 0; basefreed = 0; ref_cleanups = 0;
 	if (setup() < 0) { fprintf(out, "{\"obs\":[],\"err\":\"setup failed\"}\n"); return; }
 	fprintf(out, "{\"obs\":[");
 	for (i = 0; h && i < h->n; i++) {
@@ -396,8 +425,8 @@ static void run_scenario(jval *sc)
 	}
 	fprintf(out, "]}\n");
 	teardown = 1;
-	if (kind == 1 && E[3].alive) do_free(3);
-	for (e = 1; e <= 2; e++) if (E[e].exists && (E[e].alive || (kind == 1 && e == 1))) { E[e].alive = 1; do_free(e); }
+	if (!basefreed && kind == 1 && E[3].alive) do_free(3);
+	for (e = 1; e <= 2 && !basefreed; e++) if (E[e].exists && (E[e].alive || (kind == 1 && e == 1))) { E[e].alive = 1; do_free(e); }
 	if (listen_fd >= 0) close(listen_fd);
 	if (kind == 2) for (e = 1; e <= 2; e++) if (E[e].exists && E[e].fd >= 0) close(E[e].fd);
 	for (e = 1; e <= 2; e++) if (base[e]) { event_base_loop(base[e], EVLOOP_NONBLOCK); event_base_free(base[e]); base[e] = NULL; }
